@@ -462,6 +462,9 @@ func (m *merged) add(res *engine.WorkerResult) {
 		v := res.Violations[i]
 		if e, ok := m.viol[v.Class]; ok {
 			e.Count += v.Count
+			if len(e.Alternates) < 8 {
+				e.Alternates = append(e.Alternates, v.Alternates...)
+			}
 			if v.RunIndex < e.RunIndex {
 				c := e.Count
 				*e = v
@@ -654,6 +657,28 @@ func check(id, tier, repo string, writeEvidence bool) int {
 		}
 		ok, why := r.confirm(useBin, v)
 		if !ok {
+			// The script was minimised inside a process that had already executed
+			// many runs. If the violation needs state the library accumulated
+			// over them, only an unminimised script that contains the whole
+			// history reproduces it in a fresh process: try those, and minimise
+			// the first that does with one fresh process per candidate.
+			for _, alt := range v.Alternates {
+				av := *v
+				av.Replay = alt
+				if as, err := engine.LoadScript(alt); err == nil && as.Expect != nil {
+					av.Fingerprint = as.Expect.Fingerprint
+				}
+				if ok2, _ := r.confirm(useBin, &av); ok2 {
+					r.minimiseFresh(useBin, &av, func(cl string) bool { return cl == c })
+					_ = os.Rename(av.Replay, v.Replay)
+					v.Fingerprint, v.MinOps = av.Fingerprint, av.MinOps
+					ok = true
+					fmt.Fprintf(os.Stderr, "simcheck: note: class %s only reproduces from a script that carries its whole history (it depends on state kept across operations); minimised with fresh processes\n", c)
+					break
+				}
+			}
+		}
+		if !ok {
 			replayMisses = append(replayMisses, fmt.Sprintf("replay of %s did not reproduce class %s: %s", v.Replay, c, why))
 			continue
 		}
@@ -661,7 +686,7 @@ func check(id, tier, repo string, writeEvidence bool) int {
 			// the worker cannot minimise race classes (the detector never repeats
 			// a report inside one process): do it here, one fresh process per candidate
 			raceMinimised++
-			r.minimiseRace(useBin, v)
+			r.minimiseFresh(useBin, v, func(cl string) bool { return strings.HasPrefix(cl, "C18/race/") })
 		}
 		newViol++
 		violLines = append(violLines, fmt.Sprintf("VIOLATION property=%s replay=%s", id, v.Replay))
@@ -808,10 +833,12 @@ func (r *runner) envFor(bin, tag string) []string {
 	return nil
 }
 
-// minimiseRace shrinks the replay script of a race-class violation by delta
-// debugging with one fresh process per candidate (schedule switches first,
-// then calls), within a budget, and rewrites the replay file.
-func (r *runner) minimiseRace(bin string, v *engine.ViolationReport) {
+// minimiseFresh shrinks a replay script by delta debugging with one fresh
+// process per candidate (schedule switches, boots, faults, then ops), within a
+// budget, and rewrites the replay file. Used where in-process minimisation is
+// unsound: race classes (the detector never repeats a report) and violations
+// that depend on state the process accumulated.
+func (r *runner) minimiseFresh(bin string, v *engine.ViolationReport, same func(class string) bool) {
 	s, err := engine.LoadScript(v.Replay)
 	if err != nil {
 		return
@@ -832,7 +859,7 @@ func (r *runner) minimiseRace(bin string, v *engine.ViolationReport) {
 			return false, ""
 		}
 		for _, cl := range res.Replayed.Classes {
-			if strings.HasPrefix(cl, "C18/race/") {
+			if same(cl) {
 				return true, res.Replayed.Fingerprint
 			}
 		}
@@ -840,7 +867,8 @@ func (r *runner) minimiseRace(bin string, v *engine.ViolationReport) {
 	}
 	best := s
 	fp := v.Fingerprint
-	orig := len(s.Ops) + len(s.Sched)
+	size := func(x *engine.Script) int { return len(x.Ops) + len(x.Sched) + len(x.Boots) + len(x.Faults) }
+	orig := size(s)
 	for i := 0; i < len(best.Sched); {
 		c := best.Clone()
 		c.Sched = append(c.Sched[:i:i], c.Sched[i+1:]...)
@@ -850,8 +878,26 @@ func (r *runner) minimiseRace(bin string, v *engine.ViolationReport) {
 			i++
 		}
 	}
+	for i := 0; i < len(best.Boots); {
+		c := best.Clone()
+		c.Boots = append(c.Boots[:i:i], c.Boots[i+1:]...)
+		if ok, f := try(c); ok {
+			best, fp = c, f
+		} else {
+			i++
+		}
+	}
+	for i := 0; i < len(best.Faults); {
+		c := best.Clone()
+		c.Faults = append(c.Faults[:i:i], c.Faults[i+1:]...)
+		if ok, f := try(c); ok {
+			best, fp = c, f
+		} else {
+			i++
+		}
+	}
 	for i := 0; i < len(best.Ops); {
-		if best.Ops[i].Op != "call" {
+		if best.Ops[i].Op == "value" {
 			i++
 			continue
 		}
@@ -863,13 +909,13 @@ func (r *runner) minimiseRace(bin string, v *engine.ViolationReport) {
 			i++
 		}
 	}
-	if len(best.Ops)+len(best.Sched) < orig {
+	if size(best) < orig {
 		if best.Expect != nil {
 			best.Expect.Fingerprint = fp
 		}
 		if best.Save(v.Replay) == nil {
 			v.Fingerprint = fp
-			v.MinOps = len(best.Ops) + len(best.Sched)
+			v.MinOps = size(best)
 		}
 	}
 }
